@@ -26,4 +26,8 @@ def obligations(tier):
                           "one of the 41 catalogued dialect keys (symbolic index) x value kind str / list / dict x value length 0..2 x schema presence (all symbolic)"))
         obs.append(Ob(f"C10.filter/{m}/stmts", "c10", "c_stmts", {"VF_MODE": m}, t, FN,
                       "1..2 columns, inline PK or not, schema or not, optional CREATE INDEX, ALTER ADD FOREIGN KEY none/1 col named/2 cols/2 cols+schema"))
+    obs.append(Ob("C10.pipe/mode-independent-text", "pipe", "c_mode_text", {}, 600 if tier == "quick" else 1800,
+                  ["whole pipeline (harness/pipe.py): Parser.run -> parse_data (pre-processor, lexer, driver, actions) -> Output.format in the chosen mode"],
+                  "12 catalogued scripts ('#' in delimited / plain names and literals, comments, ALTER ADD / DROP sequences, FK ALTER, sequence, type + schema, DROP TABLE) x 15 modes "
+                  "(both symbolic): same entities in the same order, common table / column fields equal to the default mode's (dataset = schema in BigQuery), no exception"))
     return obs
